@@ -16,6 +16,7 @@ import (
 	sentinel "github.com/alibaba/sentinel-golang/api"
 	"github.com/alibaba/sentinel-golang/core/base"
 	"github.com/alibaba/sentinel-golang/core/flow"
+	"github.com/alibaba/sentinel-golang/core/system_metric"
 
 	"verifharness/engine/seq"
 	"verifharness/env"
@@ -28,6 +29,9 @@ type Config struct {
 	IntervalMs uint32  `json:"interval_ms"`
 	MaxQMs     uint32  `json:"max_queue_ms"`
 	SleepAdv   bool    `json:"sleep_advances"`
+	// MemAdaptive: the threshold comes from a memory-adaptive calculator (memory reading fixed below the low
+	// water mark, so the effective threshold is T); pacing is done by the same throttling checker
+	MemAdaptive bool `json:"memory_adaptive,omitempty"`
 }
 
 func (c Config) String() string { b, _ := json.Marshal(c); return string(b) }
@@ -106,6 +110,12 @@ func (s *scen) Reset() {
 	s.curMQ, s.fresh = s.cfg.MaxQMs, false
 	s.rule = &flow.Rule{Resource: "a", TokenCalculateStrategy: flow.Direct, ControlBehavior: flow.Throttling, Threshold: s.cfg.T,
 		MaxQueueingTimeMs: s.cfg.MaxQMs, StatIntervalInMs: s.cfg.IntervalMs}
+	if s.cfg.MemAdaptive {
+		system_metric.SetSystemMemoryUsage(0)
+		s.rule.TokenCalculateStrategy, s.rule.Threshold = flow.MemoryAdaptive, 0
+		s.rule.LowMemUsageThreshold, s.rule.HighMemUsageThreshold = int64(s.cfg.T), 1
+		s.rule.MemLowWaterMarkBytes, s.rule.MemHighWaterMarkBytes = 1024, 2048
+	}
 	if _, err := flow.LoadRules([]*flow.Rule{s.rule}); err != nil {
 		panic(err)
 	}
@@ -253,8 +263,15 @@ func configs() []Config {
 		for _, iv := range []uint32{1000, 10, 0, 5000} {
 			for _, mq := range []uint32{0, 1, 500, 1000, 5000} {
 				for _, sa := range []bool{false, true} {
-					out = append(out, Config{t, iv, mq, sa})
+					out = append(out, Config{T: t, IntervalMs: iv, MaxQMs: mq, SleepAdv: sa})
 				}
+			}
+		}
+	}
+	for _, t := range []float64{2, 3} {
+		for _, iv := range []uint32{1000, 10, 0, 5000} {
+			for _, mq := range []uint32{0, 500, 1000} {
+				out = append(out, Config{T: t, IntervalMs: iv, MaxQMs: mq, SleepAdv: iv == 10, MemAdaptive: true})
 			}
 		}
 	}
